@@ -27,6 +27,11 @@ nx = lambda a, b, l: l.startswith('exc:')
 
 def check(run):
     R = run
+    R.rule('C15.shared', 'objects created once per class / per function definition (class-level attributes, parameter '
+           'defaults) are only read: no buffer, validator, poll object, header list or option dict is shared between '
+           'connections', 1)
+    from .common import shared_state
+    shared_state(R, 'C15.shared')
     R.rule('C15.gate', 'housekeeping only after Ready: _regular arm gated on _ready; _ready set under '
                        'event.name == "ready" after _on_ready() and before the event is yielded', 5)
     R.rule('C15.poll', '_check_poll fires iff never polled or elapsed >= poll, and then records the current time; '
@@ -262,6 +267,8 @@ def pong(R):
         ok = all(("%s.name == 'pong'" % ev, True) in l and not any(t == 'auto_pong' for (t, p) in l) for l in ls)
     R.ob('C15.pong', 'pong events recorded irrespective of auto_pong', ok,
          '_on_pong is not reached for every pong event', func=q2, node=(oc[0][1] if oc else None), construct='_on_pong dispatch')
+    from .common import event_names
+    event_names(R, 'C15.pong')        # only Pongs are named 'pong'
     q, g, rd, f = _check_fn(R, '_check_ping_timeout')
     to, tm = f.params[1], f.params[2]
     alias = {}
